@@ -33,6 +33,10 @@ Target(s, h, p, d) ==
     ELSE IF d = "unix" THEN [net |-> "unix", host |-> "unix", port |-> 0]
     ELSE [net |-> IF Datagram(s) THEN "udp" ELSE "tcp", host |-> DialHost(d),
           port |-> IF DialHasPort(d) THEN DialPort ELSE DefaultPort(s)]
+\* concrete addresses the harness uses for the tokens (both domain names resolve to the same loopback address)
+HostIp(t) == IF t = "v4" THEN "127.0.0.2" ELSE IF t = "dialv4" THEN "127.0.0.3"
+             ELSE IF t = "v6" THEN "2001:db8::5" ELSE IF t = "dialv6" THEN "2001:db8::9"
+             ELSE IF t = "unix" THEN "@verifsock" ELSE "127.0.0.1"
 \* "@name" is defined for stream based upstreams only
 RowDefined(s, h, p, d) == d = "unix" => StreamBased(s)
 
